@@ -3,6 +3,8 @@ package main
 import (
 	"fmt"
 
+	"verif/harness/dict"
+
 	"verif/harness/abs"
 	"verif/harness/exec"
 	"verif/harness/gen"
@@ -166,6 +168,18 @@ func driveRTList(s *exec.State, g *gen.G, n int) {
 		pk := make(abs.L, k)
 		for j := range pk {
 			pk[j] = g.Any()
+			if g.R.Intn(6) == 0 {
+				// a CompoundPacket as one member of the list: rtcp.Marshal writes its members in place
+				head := g.RR()
+				if g.Bool() {
+					head = g.SR()
+				}
+				cp := abs.L{head, abs.V{"k": "SDES", "chunks": abs.L{abs.V{"src": g.U32(), "items": abs.L{abs.V{"t": 1, "text": g.Bytes(g.Int(1, 6))}}}}}}
+				for m := g.Int(0, 2); m > 0; m-- {
+					cp = append(cp, g.Of([]string{"BYE", "PLI", "APP", "NACK"}[g.R.Intn(4)]))
+				}
+				pk[j] = abs.V{"k": "CP", "pkts": cp}
+			}
 		}
 		scriptRT(s, abs.V{"k": "LIST", "pkts": pk})
 	}
@@ -343,6 +357,19 @@ func driveCPRand(s *exec.State, g *gen.G, n int) {
 				pk = append(pk, sdesMulti(pk))
 				continue
 			}
+			if g.R.Intn(8) == 0 {
+				// an opaque packet whose own header octets name a report or a description: it is a RawPacket
+				// all the same (the grammar goes by what the member is, not by what its octets say)
+				raws := [][]byte{{0x80, 201, 0, 1, 1, 2, 3, 4}, {0x80, 200, 0, 6, 1, 2, 3, 4, 0, 0, 0, 0, 0, 0, 0, 0, 0, 0, 0, 0, 0, 0, 0, 0, 0, 0, 0, 0},
+					{0x81, 202, 0, 3, 1, 2, 3, 4, 1, 2, 97, 98, 0, 0, 0, 0}}
+				r := raws[g.R.Intn(len(raws))]
+				rb := make(abs.L, len(r))
+				for q, x := range r {
+					rb[q] = int(x)
+				}
+				pk = append(pk, abs.V{"k": "RAW", "bytes": rb})
+				continue
+			}
 			switch {
 			case j == 0 && g.R.Intn(8) != 0:
 				if g.Bool() {
@@ -487,7 +514,7 @@ func amplifiers() [][]byte {
 	var out [][]byte
 	hdr := []byte{1, 2, 3, 4, 5, 6, 7, 8}
 	// TWCC: large status counts with many run-length chunks of every symbol, and all-ones vector chunks
-	for _, count := range []int{65535, 57345, 40000, 8191, 1000} {
+	for _, count := range []int{65535, 57345, 40000, 8191, 1000, 14, 2, 1} {
 		for _, chunk := range [][]byte{{0x3F, 0xFF}, {0x5F, 0xFF}, {0x1F, 0xFF}, {0x7F, 0xFF}, {0x3F, 0xFE}, {0x20, 0x01}, {0xFF, 0xFF}, {0xBF, 0xFF}, {0x00, 0x00}} {
 			for _, n := range []int{1, 8, 9, 20, 100, 600} {
 				body := append(append([]byte(nil), hdr...), 0, 1, byte(count>>8), byte(count), 9, 9, 9, 1)
@@ -551,6 +578,13 @@ func repeated(g *gen.G) [][]byte {
 	}
 	for _, k := range gen.Kinds {
 		vals = append(vals, g.Of(k))
+	}
+	// the smallest attack-shaped frames (a status count of 1 or 65535 under one maximal chunk), many times over:
+	// what one of them makes a decoder reserve is harmless once
+	for _, b := range amplifiers() {
+		if len(b) == 24 && b[1] == 205 && b[0]&31 == 15 && (b[14] == 0 && b[15] == 1 || b[14] == 0xFF && b[15] == 0xFF) {
+			out = append(out, rep(b, 1000))
+		}
 	}
 	for _, v := range vals {
 		b := encodeWith(v)
@@ -686,6 +720,32 @@ func init() {
 			if len(tk) == 4 {
 				scriptRT(s, abs.V{"k": "APP", "st": 1, "ssrc": abs.L{1, 2, 3, 4}, "name": t, "data": abc})
 			}
+			// texts shaped like a CNAME (user@host) with the token in and after the host part
+			uh := abs.L{117, 64, 104}
+			for _, tx := range []abs.L{cat(uh, t), cat(uh, t, t), cat(abs.L{117, 64}, t, abs.L{104}), cat(abs.L{85, 64, 72}, t), cat(t, uh)} {
+				sdes := abs.V{"k": "SDES", "chunks": abs.L{abs.V{"src": abs.L{1, 2, 3, 4}, "items": abs.L{abs.V{"t": 1, "text": tx}}},
+					abs.V{"src": abs.L{0, 192, 255, 238}, "items": abs.L{abs.V{"t": 7, "text": abs.L{97, 98, 0}}}}}}
+				scriptRT(s, sdes)
+				if b := specSDES(sdes); b != nil {
+					scriptDgram(s, b)
+				}
+			}
+		}
+		// texts that end in a multi-octet character cut short
+		for _, sf := range dict.Suffixes() {
+			for _, tx := range []abs.L{toL(sf), cat(abc, toL(sf)), cat(abs.L{117, 64, 104, 46}, toL(sf))} {
+				for _, typ := range []int{1, 2, 8} {
+					scriptRT(s, abs.V{"k": "SDES", "chunks": abs.L{abs.V{"src": abs.L{1, 2, 3, 4}, "items": abs.L{abs.V{"t": typ, "text": tx}}}}})
+				}
+				scriptRT(s, abs.V{"k": "BYE", "srcs": abs.L{abs.L{1, 2, 3, 4}}, "reason": tx})
+			}
+		}
+		// different texts that collide under a standard 32-bit hash, in two chunks and in two items of one chunk
+		for _, pr := range dict.Collisions() {
+			a, b := toL([]byte(pr[0])), toL([]byte(pr[1]))
+			scriptRT(s, abs.V{"k": "SDES", "chunks": abs.L{abs.V{"src": abs.L{1, 2, 3, 4}, "items": abs.L{abs.V{"t": 1, "text": a}}},
+				abs.V{"src": abs.L{5, 6, 7, 8}, "items": abs.L{abs.V{"t": 1, "text": b}}}}})
+			scriptRT(s, abs.V{"k": "SDES", "chunks": abs.L{abs.V{"src": abs.L{1, 2, 3, 4}, "items": abs.L{abs.V{"t": 2, "text": b}, abs.V{"t": 7, "text": a}}}}})
 		}
 		// overlays: tokens of up to 4 octets at every word of one small packet per kind
 		g2 := gen.New(7)
@@ -882,4 +942,33 @@ func init() {
 			}
 		}
 	}
+}
+
+// specSDES encodes an SDES value by hand (RFC 3550 6.5), so that a text reaches the decoders as a sender
+// other than this library would put it on the wire (C09 needs input the library's Marshal did not shape).
+func specSDES(v abs.V) []byte {
+	var body []byte
+	cs := abs.List(v["chunks"])
+	if len(cs) > 31 {
+		return nil
+	}
+	for _, c := range cs {
+		cm := c.(abs.V)
+		ch := abs.GoBytes(cm["src"])
+		for _, it := range abs.List(cm["items"]) {
+			im := it.(abs.V)
+			tx := abs.GoBytes(im["text"])
+			if len(tx) > 255 {
+				return nil
+			}
+			ch = append(ch, byte(abs.I(im["t"])), byte(len(tx)))
+			ch = append(ch, tx...)
+		}
+		ch = append(ch, 0)
+		for len(ch)%4 != 0 {
+			ch = append(ch, 0)
+		}
+		body = append(body, ch...)
+	}
+	return frame(202, len(cs), body)
 }
